@@ -3,7 +3,7 @@
 generated ones: the statement is printed by Coq from the proved lemma and closed with `exact @lemma`. Idempotent."""
 import subprocess, re, os, sys
 COQ = os.path.join(os.path.dirname(os.path.dirname(os.path.abspath(__file__))), "coq")
-EXTRA = {"C03": ["Ctpg.Model.Dfa", "Ctpg.Model.Containers", "Ctpg.Proofs.LRGenWordsRefine", "Ctpg.Proofs.CharsetWordsRefine", "Ctpg.Proofs.KernelWordsRefine", "Ctpg.Proofs.MergedFromLink"], "C04": ["Ctpg.Model.Driver", "Ctpg.Proofs.UtilsDriverLink"], "C01": ["Ctpg.Model.LRGen", "Ctpg.Model.LRGenWords", "Ctpg.Proofs.LRGenWordsRefine", "Ctpg.Proofs.GenWf", "Ctpg.Proofs.GenClosure", "Ctpg.Proofs.KernelWordsRefine", "Ctpg.Proofs.ClosureWordsRefine"]}
+EXTRA = {"C17": ["Ctpg.Model.RegexFront", "Ctpg.Proofs.UtilsRegexLink"], "C03": ["Ctpg.Model.RegexFront", "Ctpg.Proofs.UtilsRegexLink", "Ctpg.Model.Dfa", "Ctpg.Model.Containers", "Ctpg.Proofs.LRGenWordsRefine", "Ctpg.Proofs.CharsetWordsRefine", "Ctpg.Proofs.KernelWordsRefine", "Ctpg.Proofs.MergedFromLink"], "C04": ["Ctpg.Model.Driver", "Ctpg.Proofs.UtilsDriverLink"], "C01": ["Ctpg.Model.LRGen", "Ctpg.Model.LRGenWords", "Ctpg.Proofs.LRGenWordsRefine", "Ctpg.Proofs.GenWf", "Ctpg.Proofs.GenClosure", "Ctpg.Proofs.KernelWordsRefine", "Ctpg.Proofs.ClosureWordsRefine"]}
 BASE = ["Ctpg.Base.Prelude", "Ctpg.Model.Grammar", "Ctpg.Model.Containers", "Ctpg.Model.Utils", "Ctpg.Proofs.ContainersBits", "Ctpg.Proofs.ContainersVec", "Ctpg.Proofs.ContainersSort", "Ctpg.Proofs.UtilsCorrect"]
 def coq_type(imports, lemma):
     src = "".join(f"Require Import {m}.\n" for m in imports) + "Set Printing Width 100000.\nSet Printing Depth 100000.\n" + f"Check @{lemma}.\n"
@@ -41,6 +41,7 @@ ADD = {
          ("C03_merged_from_on_words_is_the_models_list", "merged_fold_sim", "LINK (builder): `if (merged_from.test(from)) return; merged_from.set(from);` on the words of the state's bitset stays related to the model's `if mem_nat from l then l else from :: l` over any sequence of merges"),
          ("C03_whole_set_flip_is_exact_for_256_bits", "cb_run_clean_multiple_of_64", "256 is a multiple of 64: no padding bits exist, flip() and set() are exact"),
          ("C03_hex_escapes_decode_to_their_value", "hex_digits_to_char_spec", "regex::hex_digits_to_char on two hex digits is 16 * v1 + v2 (as a byte, also for values >= 0x80 where char is negative)"),
+         ("C03_front_end_hex_decoding_is_the_real_one", "front_end_hex_decoding_is_the_real_one", "LINK (pattern front end): the model's unsigned hex decoding of \\xHH equals the signed-char computation of regex::hex_digits_to_char on all hex digit pairs"),
          ("C03_hex_digit_class", "is_hex_digit_spec", "utils::is_hex_digit on signed chars = the three ASCII ranges"),
          ("C03_dec_digit_class", "is_dec_digit_spec", "utils::is_dec_digit = '0'..'9'")],
  "C04": [("C04_nul_is_never_whitespace", "find_char_nul", "skip_whitespace asks utils::find_char(byte, table): a NUL byte is never found in a NUL-terminated table - embedded NULs are not skipped"),
@@ -50,6 +51,7 @@ ADD = {
  "C09": [("C09_byte_names_in_messages", "char_name_spec", "utils::char_names (the byte printed by 'Unexpected character'): printable bytes 33..126 are themselves, every other byte (space, control, >= 0x80) is \\\\xHH in upper-case hex"),
          ("C09_byte_names_identify_the_byte", "char_name_injective", "distinct bytes have distinct names")],
  "C17": [("C17_printable_class", "is_printable_spec", "utils::is_printable on signed chars: exactly 0x20..0x7e - bytes >= 0x80 are negative chars and are refused as raw pattern bytes"),
+         ("C17_front_end_classes_are_the_signed_char_classes", "front_end_classes_are_the_signed_char_classes", "LINK (pattern front end): the classes the model's regex_lexer uses (unsigned comparisons on 0..255) are the signed-char classes of utils:: on every byte"),
          ("C17_high_bytes_belong_to_no_class", "high_bytes_no_class", "bytes 128..255 are neither printable nor digits")],
 }
 for pid, thms in ADD.items():
